@@ -5,6 +5,6 @@ mod=$1; trace=$2
 d=$(mktemp -d /verif/.work/tv.XXXXXX)
 cp /verif/spec/trace/$mod.tla /verif/spec/*.tla /verif/spec/env/*.tla "$d"/ 2>/dev/null
 cp "$trace" "$d/trace.ndjson"
-printf 'SPECIFICATION Spec\nCONSTANT TraceFile = "trace.ndjson"\nPOSTCONDITION TraceAccepted\nCHECK_DEADLOCK FALSE\n' > "$d/$mod.cfg"
+printf 'SPECIFICATION Spec\nCONSTANT TraceFile = "trace.ndjson"\n%sPOSTCONDITION TraceAccepted\nCHECK_DEADLOCK FALSE\n' "${TV_CONSTANTS:-}" > "$d/$mod.cfg"
 (cd "$d" && timeout 1200 /verif/bin/tlcx -workers 1 -metadir "$d/md" "$mod.tla" 2>&1 | grep -v '^Progress\|^$' | tail -${3:-25})
 rm -rf "$d"
